@@ -868,6 +868,17 @@ pub mod verif_hooks {
         }
     }
 
+    /// The path strategy `ScionStack::bind_with_config` ends up with for a socket configured with
+    /// the given policies and no scorers of its own: the policies plus the default scorers.
+    pub fn strategy_with_default_scorers(
+        policies: Vec<Arc<dyn crate::path::policy::PathPolicy>>,
+    ) -> crate::path::PathStrategy {
+        let mut strategy = crate::path::PathStrategy::default();
+        strategy.policies = policies;
+        strategy.scoring.use_default_scorers();
+        strategy
+    }
+
     /// Builds a path aware UDP socket over an in-memory underlay.
     ///
     /// Mirrors `ScionStack::bind_with_config`: the SCMP handler list is `extra_handlers` followed
